@@ -141,6 +141,41 @@ pub fn exec(func: &str, a: &mut Args) -> String {
                 s
             }
         }
+        // parts3 <maxhulls> <res> <fill> <concavity> <plane_ds> <hull_ds> <mesh>: per-part bookkeeping of the real VHACD run
+        // (observed inputs as for acd3).  Output: nparts then per part: n min_bb(3) max_bb(3) compute_volume
+        "parts3" => {
+            let maxh = a.u() as u32; let res = a.u() as u32; let fm = a.u(); let conc = a.f();
+            let pds = a.u() as u32; let hds = a.u() as u32;
+            let (pts, idx) = mesh(a);
+            let vox = VoxelSet::voxelize(&pts, &idx, res, fill(fm), false);
+            let mut params = VHACDParameters::default();
+            params.max_convex_hulls = maxh; params.resolution = res; params.fill_mode = fill(fm); params.concavity = conc;
+            params.plane_downsampling = pds; params.convex_hull_downsampling = hds;
+            let pre = fvox(&vox);
+            let _ = verif_tap::take();
+            let vh = VHACD::from_voxels(&params, vox);
+            let dec = verif_tap::take();
+            let mut ds = format!("{}", dec.len());
+            for d in &dec { match d { None => ds.push_str(" 0"), Some((abc, dd)) => ds.push_str(&format!(" 1 {} {}", d3::fv(abc), ff(*dd))) } }
+            let mut s = format!("{}", vh.voxel_parts().len());
+            for p in vh.voxel_parts() {
+                let (lo, hi) = (p.min_bb_voxels(), p.max_bb_voxels());
+                s.push_str(&format!(" {} {} {} {} {} {} {} {}", p.voxels().len(), lo.x, lo.y, lo.z, hi.x, hi.y, hi.z, ff(p.compute_volume())));
+            }
+            format!("{} {} ;; {}", pre, ds, s)
+        }
+        // hullsample3 <res> <fill> <sampling> <mesh>: VoxelSet::compute_convex_hull(sampling) of the whole voxelization.
+        // Output: the voxel set (observed input) ;; nv hull vertices
+        "hullsample3" => {
+            let res = a.u() as u32; let fm = a.u(); let sampling = a.u() as u32;
+            let (pts, idx) = mesh(a);
+            let vox = VoxelSet::voxelize(&pts, &idx, res, fill(fm), false);
+            let pre = fvox(&vox);
+            let (hp, _ht) = vox.compute_convex_hull(sampling);
+            let mut s = format!("{}", hp.len());
+            for p in &hp { s.push(' '); s.push_str(&d3::fp(p)); }
+            format!("{} ;; {}", pre, s)
+        }
         // voxelize3 <res> <fill> <mesh>  → origin scale n (i j k s)*
         "voxelize3" => {
             let res = a.u() as u32; let fm = a.u();
@@ -616,6 +651,8 @@ pub fn gen(r: &mut Rng, thorough: bool) -> Vec<(String, String)> {
         let pds = *r.pick(&[1u32, 2, 4]); let hds = *r.pick(&[1u32, 2, 4]);
         let ms = hmesh(&m);
         v.push(("acd3".into(), format!("{} {} {} {} {} {} {}", maxh, res, fm, hx(conc), pds, hds, ms)));
+        v.push(("parts3".into(), format!("{} {} {} {} {} {} {}", maxh, res, fm, hx(conc), pds, hds, ms)));
+        if it % 2 == 1 { v.push(("hullsample3".into(), format!("{} {} {} {}", res.min(12), fm, [1u32, 2, 3, 5, 0, 64][(it / 2) % 6], ms))); }
         if it % 3 == 0 { v.push(("hulls3".into(), format!("{} {} {} {} {} {} {}", maxh, res.min(12), fm, hx(conc), pds, hds, ms))); }
         // voxelize3: the last flag tells the oracle whether the mesh is convex (fill check applies)
         v.push(("voxelize3".into(), format!("{} {} {} {}", res, fm, ms, if convex { "1" } else { "0" })));
@@ -663,7 +700,10 @@ pub fn gen(r: &mut Rng, thorough: bool) -> Vec<(String, String)> {
         v.push(("fill3".into(), args.clone()));
         if it % 2 == 0 { v.push(("fillset3".into(), args)); }
         // the same shapes through the whole VHACD pipeline (plain flood fill is what `decompose` uses by default)
-        if it % 8 == 3 && res <= 16 { v.push(("acd3".into(), format!("{} {} {} {} {} {} {}", 4, res, 1, hx(0.01), 2, 2, hmesh(&m)))); }
+        if it % 8 == 3 && res <= 16 {
+            v.push(("acd3".into(), format!("{} {} {} {} {} {} {}", 4, res, 1, hx(0.01), 2, 2, hmesh(&m))));
+            v.push(("parts3".into(), format!("{} {} {} {} {} {} {}", *r.pick(&[2u32, 4, 8]), res, 1, hx(0.01), *r.pick(&[1u32, 2, 4]), 2, hmesh(&m))));
+        }
     }
     if std::env::var("VERIF_FAMILIES").is_ok() { eprintln!("C18 fill3 families: {:?}", fam); }
     // ---- 3-D voxelizer model (ModelVox3.lean): the triangle/box predicate and whole grids ----
